@@ -87,7 +87,25 @@ def tie_status():
     two = dict(translate.translate_all2(repo))
     now = {n: hashlib.sha1((t + "|" + two.get(n, "")).encode()).hexdigest() for n, t in translate.translate_all(repo)}
     now.update({"_types." + n: hashlib.sha1(t.encode()).hexdigest() for n, t in translate_types.translate_all(repo)})
+    import translate_methods
+    now.update({"_methods." + n: hashlib.sha1(t.encode()).hexdigest() for n, t in translate_methods.translate_all(repo)})
     changed = {fn: row["model"] for fn, row in table.items() if now.get(fn) != row["sha1"]}
+    # literals that appear in the changed source but not in the source the proofs were made for: where a
+    # search for a failing input should look first (handed to the generators as hints)
+    terms = {n: t + "|" + two.get(n, "") for n, t in translate.translate_all(repo)}
+    terms.update({"_types." + n: t for n, t in translate_types.translate_all(repo)})
+    terms.update({"_methods." + n: t for n, t in translate_methods.translate_all(repo)})
+    ints, strs = set(), set()
+    for fn in changed:
+        new_t, old_t = terms.get(fn, ""), table[fn].get("term", "")
+        for m in re.findall(r"\.int \((-?\d+)\)", new_t):
+            if ".int (%s)" % m not in old_t and len(m) < 40:
+                ints.add(int(m))
+        for m in re.findall(r'\.str "((?:[^"\\]|\\.)*)"', new_t):
+            if '.str "%s"' % m not in old_t and len(m) < 200:
+                strs.add(m.encode().decode("unicode_escape") if "\\" in m else m)
+    if ints or strs:
+        os.environ["VERIF_HINTS"] = json.dumps({"ints": sorted(ints), "strs": sorted(strs)})
     return table, changed
 
 
@@ -155,7 +173,7 @@ def proof_step(prop, log):
         out["tie"]["build"] = "not rebuilt: only functions irrelevant to this property changed (%s)" % ", ".join(sorted(changed))
     elif relevant:
         with BuildLock():
-            rc, txt = sh(["lake", "build", "JS.Props.Tie", "JS.Props.TieTypes"], cwd=LEAN)
+            rc, txt = sh(["lake", "build", "JS.Props.Tie", "JS.Props.TieTypes", "JS.Props.TieMethods"], cwd=LEAN)
         if rc != 0:
             hit = [fn for fn in relevant if fn in changed]
             out["tie"]["build"] = "failed"
@@ -175,12 +193,13 @@ def proof_step(prop, log):
             out["tie"]["build"] = "ok"
             audit = os.path.join(LEAN, ".lake", "audit_Tie.lean")
             with open(audit, "w") as f:
-                f.write("import JS.AuditCmd\nimport JS.Props.Tie\nimport JS.Props.TieTypes\n#audit JS.Props.Tie\n")
+                f.write("import JS.AuditCmd\nimport JS.Props.Tie\nimport JS.Props.TieTypes\nimport JS.Props.TieMethods\n#audit JS.Props.Tie\n")
             with BuildLock():
                 rc, txt = sh(["lake", "env", "lean", audit], cwd=LEAN)
             if rc != 0:
                 raise Infra("audit of JS.Props.Tie failed:\n" + txt[-2000:])
-            want = {"JS.Props.Tie.%s_%s" % (table[fn].get("thm", "tie"), fn) for fn in relevant if not fn.startswith("_types.")}
+            want = {"JS.Props.Tie.%s_%s" % (table[fn].get("thm", "tie"), fn) for fn in relevant if not fn.startswith("_")}
+            want |= {"JS.Props.Tie.tie_%s" % fn.split(".", 1)[1] for fn in relevant if fn.startswith("_methods.")}
             if any(fn.startswith("_types.") for fn in relevant):
                 want |= {"JS.Props.Tie.tyfn_is_source", "JS.Props.Tie.draft_types_have_source", "JS.Props.Tie.isType_is_source"}
             # … and their composition: the evaluator over the interpreted source IS the evaluator over the
@@ -202,7 +221,7 @@ def proof_step(prop, log):
             missing = want - set(out["theorems"])
             if missing:
                 out["broken"].append({"module": "JS.Props.Tie", "errors": ["tie theorems missing: %s" % sorted(missing)]})
-            for m in ("JS.Props.Tie", "JS.Proofs.TieBase", "JS.Proofs.TieA", "JS.Proofs.TieB", "JS.Proofs.TieC", "JS.Proofs.TieCompose", "JS.Proofs.TieD", "JS.Proofs.Tie2J", "JS.Proofs.Tie2K", "JS.Proofs.TieTypes", "JS.Py.IR2", "JS.Py.Interp2", "JS.Props.TieTypes", "JS.Py.Pred",
+            for m in ("JS.Props.Tie", "JS.Proofs.TieBase", "JS.Proofs.TieA", "JS.Proofs.TieB", "JS.Proofs.TieC", "JS.Proofs.TieCompose", "JS.Proofs.TieD", "JS.Proofs.Tie2J", "JS.Proofs.Tie2K", "JS.Proofs.Tie2M", "JS.Proofs.TieTypes", "JS.Py.IR2", "JS.Py.Interp2", "JS.Py.IR3", "JS.Py.Interp3", "JS.Proofs.TieMethods", "JS.Props.TieMethods", "JS.Props.TieTypes", "JS.Py.Pred",
                       "JS.Py.IR", "JS.Py.Interp", "JS.Py.EvalSrc"):
                 srcf = os.path.join(LEAN, *m.split(".")) + ".lean"
                 hit = FORBIDDEN.search(strip_comments(open(srcf).read()))
